@@ -42,7 +42,16 @@ def run(ctx):
     for i in range(N(25, 200)):
         n = rng.choice([1, 2, 2])      # 3 spatial orbitals (6 modes: 46k-term substitutions with 53-bit fractions) exceed the evaluation budget
         eri = rand_eri(rng, n); _, two = spinorb_from_spatial(np.zeros((n, n)), eri); T = 0.5 * two
-        lam, g, corr, tv = low_rank_two_body_decomposition(T, truncation_threshold=0.0, final_rank=n * n)
+        # every third case passes the spatial tensor h[p,q,r,s] = T[2p,2q+1,2r+1,2s] with spin_basis=False: same spin-summed operator
+        spatial = (i % 3 == 2)
+        try:
+            if spatial: lam, g, corr, tv = low_rank_two_body_decomposition(0.5 * eri, truncation_threshold=0.0, final_rank=n * n, spin_basis=False)
+            else: lam, g, corr, tv = low_rank_two_body_decomposition(T, truncation_threshold=0.0, final_rank=n * n)
+            if len(lam) != n * n or np.shape(g) != (n * n, 2 * n, 2 * n) or np.shape(corr) != (2 * n, 2 * n): raise ValueError('shapes %r %r %r' % (np.shape(lam), np.shape(g), np.shape(corr)))
+        except Exception as e:
+            ctx.count('low_rank_full', 1)
+            ctx.violation('C17 low_rank_two_body_decomposition(spin_basis=%s) on %d spatial orbitals at full rank: %s: %s' % (not spatial, n, type(e).__name__, e), {'n_spatial': n, 'spin_basis': not spatial, 'eri': repr(eri.tolist())})
+            continue
         target = spec_poly({(1, 1, 0, 0): T})
         parts = []
         for l in range(len(lam)):
@@ -50,7 +59,12 @@ def run(ctx):
             parts.append('iscale (fmul %s %s) %s' % (G, G, cC(float(lam[l]))))
         parts.append(coq_fop_terms(one_body_terms(corr)))
         add('low_rank_full', '(fermi_close %s %s (%s))' % (EPS2, coq_fop_terms(target), ' ++ '.join(parts)),
-            {'call': 'low_rank_two_body_decomposition (full rank)', 'n_spatial': n, 'eri_nonzero': int(np.count_nonzero(eri))}, key=repr(eri.tolist()))
+            {'call': 'low_rank_two_body_decomposition (full rank, spin_basis=%s)' % (not spatial), 'n_spatial': n, 'eri': repr(eri.tolist())}, key=repr(eri.tolist()))
+        if spatial:
+            c_s, chem_s = get_chemist_two_body_coefficients(0.5 * eri, False); c_t, chem_t = get_chemist_two_body_coefficients(T, True)
+            ctx.count('chemist_coefficients_spatial', 1, nontrivial_key=repr(eri.tolist()))
+            if chem_s.shape != chem_t.shape or not np.allclose(chem_s, chem_t, atol=1e-12) or not np.allclose(c_s, c_t, atol=1e-12):
+                ctx.violation('C17 get_chemist_two_body_coefficients: the spatial tensor with spin_basis=False and its spin-orbital expansion with spin_basis=True give different chemist tensors / corrections', {'n_spatial': n, 'eri': repr(eri.tolist())})
         # truncation bookkeeping for every rank: reported value = sum of the weights of the discarded terms
         _, chem = get_chemist_two_body_coefficients(T, True)
         ev, vec = np.linalg.eigh(chem.reshape(n * n, n * n))
@@ -75,6 +89,15 @@ def run(ctx):
                 if V[a, b] != 0: nn[((a, 1), (a, 0), (b, 1), (b, 0))] = complex(V[a, b])
         add('one_body_squared', '(fermi_close %s (fmul %s %s) (subst_op %s %s %s))' % (EPS2, G, G, cmat(np.asarray(R).tolist()), cnat(2 * n), coq_fop_terms(nn)),
             {'call': 'prepare_one_body_squared_evolution', 'one_body': hm.tolist()}, key=repr(hm.tolist()))
+        if spatial and n > 1:
+            # spin_basis=False: the matrix is used as it stands (here a general symmetric matrix on n modes, no spin structure)
+            V2, R2 = prepare_one_body_squared_evolution(hm, spin_basis=False)
+            G2 = coq_fop_terms(one_body_terms(hm)); nn2 = {}
+            for a in range(n):
+                for b in range(n):
+                    if V2[a, b] != 0: nn2[((a, 1), (a, 0), (b, 1), (b, 0))] = complex(V2[a, b])
+            add('one_body_squared', '(fermi_close %s (fmul %s %s) (subst_op %s %s %s))' % (EPS2, G2, G2, cmat(np.asarray(R2).tolist()), cnat(n), coq_fop_terms(nn2)),
+                {'call': 'prepare_one_body_squared_evolution(spin_basis=False)', 'one_body': hm.tolist()}, key=('s', repr(hm.tolist())))
     # ---- spin-orbital expansion and frozen-core active space = freezing orbitals of the full Hamiltonian
     for i in range(N(40, 300)):
         n = rng.choice([2, 3] if ctx.quick else [2, 3, 3])
